@@ -29,6 +29,9 @@ func (w *World) extraChecks(id string, opts *RunOpts) *Extra {
 	if id == "C14" {
 		w.boundedC14(opts, ex)
 	}
+	if id == "C18" {
+		w.errorPropagation(opts, ex)
+	}
 	return ex
 }
 
@@ -44,7 +47,7 @@ func (w *World) witnessFindings(id string, opts *RunOpts, ex *Extra) {
 	}
 	var jobs []*job
 	for _, f := range opts.Findings {
-		if f.Kind != "known" || f.Carve != "" || f.Witness == "" || !hasTag(strings.Split(f.Property, ","), id) {
+		if f.Kind != "known" || f.Carve != "" || f.Witness == "" || f.Site != "" || !hasTag(strings.Split(f.Property, ","), id) {
 			continue
 		}
 		c, err := loadE2ECase(filepath.Join(opts.Verif, f.Witness))
